@@ -60,6 +60,7 @@ type client struct {
 	topic      unsafe.Pointer
 	isClosed   int32
 	isCloseing int32
+	closeOnce  int32
 }
 
 func newClient(q *queue) Client {
@@ -205,6 +206,10 @@ func (client *client) isInClose() bool {
 // Close 关闭client
 func (client *client) Close() {
 	if atomic.LoadInt32(&client.isClosed) == 1 || atomic.LoadPointer(&client.topic) == nil {
+		return
+	}
+	// single entry: a concurrent second caller must not close the channels again
+	if !atomic.CompareAndSwapInt32(&client.closeOnce, 0, 1) {
 		return
 	}
 	topic := client.getTopic()
